@@ -130,3 +130,87 @@ class ReplyLatency:
 def is_kickoff(call):
   """The `enqueue_from_iterator` kick-off of CourierClient.async_iter: maybe_make(..., return_immediately=True)."""
   return call.method == 'maybe_make' and bool(call.kwargs.get('return_immediately'))
+
+
+# ------------------------------------------------------------------------------------------ after a hang
+
+def forget_stuck_threads():
+  """After a run that was reported as a HANG: its helper threads (executor threads blocked for ever in a queue
+  `put`/`get` without timeout) never touch the guard clock, so they cannot be unwound - and the interpreter would
+  wait for them at process exit (threading._shutdown / concurrent.futures' exit hook), wedging the whole check.
+  They are taken off the interpreter's wait lists; the verdict of the case (hang = oracle failure) is not affected."""
+  import concurrent.futures.thread as cft
+  main = threading.main_thread()
+  me = threading.current_thread()
+  for t in list(threading.enumerate()):
+    if t is main or t is me or t.daemon:
+      continue
+    try:
+      cft._threads_queues.pop(t, None)                       # pylint: disable=protected-access
+      lock = getattr(t, '_tstate_lock', None)
+      if lock is not None:
+        threading._shutdown_locks.discard(lock)              # pylint: disable=protected-access
+    except Exception:  # pylint: disable=broad-except
+      pass
+  _debug_note(f'forget_stuck_threads: {[(t.name, t.daemon) for t in threading.enumerate()]} '
+              f'queues={len(cft._threads_queues)} locks={len(threading._shutdown_locks)}')
+
+
+def _debug_note(msg):
+  import os
+  d = os.environ.get('VERIF_DEBUG_FH')
+  if d:
+    with open(os.path.join(d, f'note_{os.getpid()}.log'), 'a') as f:
+      f.write(msg + '\n')
+
+
+_EXIT_GUARD = []
+
+
+def _exit_hook():
+  """Runs at the start of threading._shutdown().  In a pool worker (multiprocessing child) the only thing that
+  follows is `os._exit(exitcode)`: do it right away, so that event loops of closed cases that are still alive cannot
+  hand new, for-ever-blocking work to their executors while concurrent.futures' exit hook joins executor threads."""
+  import multiprocessing
+  import os
+  import sys
+  forget_stuck_threads()
+  if multiprocessing.parent_process() is not None:
+    for f in (sys.stdout, sys.stderr):
+      try:
+        f.flush()
+      except Exception:  # pylint: disable=broad-except
+        pass
+    os._exit(0)
+
+
+def install_exit_guard():
+  """Once per process (see `_exit_hook`): a check process must terminate whatever a failed run left behind."""
+  if not _EXIT_GUARD:
+    _EXIT_GUARD.append(True)
+    try:
+      threading._register_atexit(_exit_hook)      # pylint: disable=protected-access
+    except Exception:  # pylint: disable=broad-except
+      pass
+
+
+_DEBUG_FILES = []
+
+
+def _debug_stack_dumps():
+  """VERIF_DEBUG_FH=<dir>: `kill -USR2 <pid>` writes the stacks of all threads to <dir>/fh_<pid>.log (diagnosis of
+  wedged check processes only; off by default)."""
+  import os
+  d = os.environ.get('VERIF_DEBUG_FH')
+  if d:
+    import faulthandler
+    import signal
+    try:
+      f = open(os.path.join(d, f'fh_{os.getpid()}.log'), 'w')
+      faulthandler.register(signal.SIGUSR2, file=f, all_threads=True)
+      _DEBUG_FILES.append(f)
+    except Exception:  # pylint: disable=broad-except
+      pass
+
+
+_debug_stack_dumps()
